@@ -5,14 +5,14 @@ schedules with all 16 set/unset combinations of the four lifecycle commands; eve
 Coq monitors; Python oracles judge impl's trace and final state directly (harness/syscheck.py)."""
 from harness import core, syscheck
 
-MODES = {'hooks': 8, 'local': 1, 'kill': 1}
+MODES = {'hooks': 8, 'local': 1, 'kill': 1, 'resubmit_hooks': 3}
 
 
 def run(chk):
     ok = core.standard_proof_phase(chk, "C16", gen_needed=())
     chk.notes["system_theorems"] = ["c16_monitor", "c16_setup_once_before_any_batch", "c16_node_setup_precedes_launch", "c16_node_teardown_is_last"]
     chk.notes["partial"] = "environment variables of the hook commands and 'configuring hooks never prevents results from being recorded' are decided on impl by oracles; hook exit codes are the scenario's (0); local mode judged by oracles only"
-    syscheck.system_phase(chk, "C16", MODES, n_quick=150, n_thorough=3000, also=())
+    syscheck.system_phase(chk, "C16", MODES, n_quick=170, n_thorough=3000, also=())
 
 
 def replay(path):
